@@ -209,8 +209,15 @@ impl Check for DrawdownScan {
             let mut meang = MeanDrawdownGenerator::default();
             for (i, (t, v)) in pts.iter().enumerate().skip(1) {
                 let got = g.update(Timed::new(*v, ts(*t))).map(|d| {
-                    maxg.update(&d);
-                    meang.update(&d);
+                    // the max / mean generators are either fed from empty, or (second flavour)
+                    // constructed from the first completed drawdown through their init()
+                    if use_init && scan.completed.is_empty() {
+                        maxg = MaxDrawdownGenerator::init(d.clone());
+                        meang = MeanDrawdownGenerator::init(d.clone());
+                    } else {
+                        maxg.update(&d);
+                        meang.update(&d);
+                    }
                     conv(&d)
                 });
                 let exp = scan.step(*t, *v);
@@ -374,7 +381,7 @@ impl Check for DrawdownScan {
 }
 
 pub fn run(ctx: &mut Ctx) {
-    ctx.rule = "drawdown_scan: 1..60|150 timed points, strictly increasing times, values from a small grid (1..7 mostly, up to 200, a few <= 0 after the first) with +-0.1 perturbations so that equal consecutive values, exact recoveries to the peak and new highs by one tick are common; first value > 0. Fed to DrawdownGenerator (default and init), Max/Mean generators, TearSheetAssetGenerator (balances; a third of them with part of the total locked, free < total) and TearSheetGenerator (cumulative PnL of closed positions with varying entry price / size), each compared after every point with an independent peak-to-trough scan; after 15% of the points the live generators themselves (not copies) are asked for the current drawdown / an interim tear sheet and keep being updated afterwards. non-trivial = >= 2 completed drawdowns and one in progress at the end; distinct by hash of the case.".into();
+    ctx.rule = "drawdown_scan: 1..60|150 timed points, strictly increasing times, values from a small grid (1..7 mostly, up to 200, a few <= 0 after the first) with +-0.1 perturbations so that equal consecutive values, exact recoveries to the peak and new highs by one tick are common; first value > 0. Fed to DrawdownGenerator (default and init), Max/Mean generators (updated from empty, and constructed from the first drawdown through init()), TearSheetAssetGenerator (balances; a third of them with part of the total locked, free < total) and TearSheetGenerator (cumulative PnL of closed positions with varying entry price / size), each compared after every point with an independent peak-to-trough scan; after 15% of the points the live generators themselves (not copies) are asked for the current drawdown / an interim tear sheet and keep being updated afterwards. non-trivial = >= 2 completed drawdowns and one in progress at the end; distinct by hash of the case.".into();
     ctx.assumptions = vec![
         "running maxima are positive (first value > 0); later values may be <= 0".into(),
         "tear-sheet generate() is called once per generator clone, as the engine API does (generate folds the in-progress drawdown into max/mean)".into(),
